@@ -88,11 +88,9 @@ Definition C08_oracle_ok (c : C08_case) : bool :=
   list_eqb (firstn 20 (c8_bytes c)) (enc_hdr (c8_hdr c)) &&
   lengths_exact (c8_le c) (map sub_id (c8_subs c)) (skipn 20 (c8_bytes c)).
 
-(* class 1: a submessage or parameter longer than its 16-bit length field (C08-length-truncation)
-   class 2: INFO_REPLY with the multicast flag, which the writer never puts in the header *)
+(* class 1: a submessage or parameter longer than its 16-bit length field (C08-length-truncation) *)
 Definition C08_known (c : C08_case) : N :=
-  if existsb C08_known_len (c8_subs c) then 1%N
-  else if existsb C08_known_reply (c8_subs c) then 2%N else 0%N.
+  if existsb C08_known_len (c8_subs c) then 1%N else 0%N.
 
 (* ---------------------------------------------------------------------- C07 *)
 (* input: any byte string; output of the real try_from (+ accessors) and what the call
